@@ -5,10 +5,12 @@ import (
 	"context"
 	"crypto/sha256"
 	"fmt"
+	pb "github.com/wealdtech/eth2-signer-api/pb/v1"
 	"os"
 	"path/filepath"
 	"runtime"
 	"strings"
+	"sync"
 
 	"github.com/attestantio/dirk/core"
 	spec "github.com/attestantio/go-eth2-client/spec/phase0"
@@ -262,6 +264,77 @@ func cmdSigs(args []string) int {
 		}
 	}
 	batchSteps := run.steps
+
+	// separate batch requests at the same time through the gRPC handler object: every caller's response
+	// carries, position by position, that caller's accounts' signatures over that caller's data
+	{
+		inst, err := run.newInstance(admin)
+		if err != nil {
+			return 2
+		}
+		nCallers, perCaller, rounds := 8, 4, 40
+		if nCallers*perCaller > len(fx.Accounts)-2 {
+			nCallers = (len(fx.Accounts) - 2) / perCaller
+		}
+		var cmu sync.Mutex
+		var cwg sync.WaitGroup
+		var cfails []string
+		checked := 0
+		for g := 0; g < nCallers; g++ {
+			cwg.Add(1)
+			go func(g int) {
+				defer cwg.Done()
+				hctx := ctxWithClient(ctx, "client1", "10.0.0.1")
+				for r := 0; r < rounds; r++ {
+					ep := uint64(5000 + 2*r)
+					var datas []AttData
+					var whos []*AcctInfo
+					areq := &pb.SignBeaconAttestationsRequest{}
+					mreq := &pb.MultisignRequest{}
+					for i := 0; i < perCaller; i++ {
+						a := fx.Accounts[g*perCaller+i]
+						tag := sha256.Sum256([]byte(fmt.Sprintf("caller %d round %d entry %d", g, r, i)))
+						d := AttData{Dom: mkDomain(domAttester, 0), Slot: ep * 32, Idx: uint64(g), BBR: tag[:], Src: &Checkpoint{ep - 1, fill32(0)}, Tgt: &Checkpoint{ep, tag[:]}}
+						datas, whos = append(datas, d), append(whos, a)
+						areq.Requests = append(areq.Requests, &pb.SignBeaconAttestationRequest{Id: &pb.SignBeaconAttestationRequest_PublicKey{PublicKey: a.Key}, Domain: d.Dom,
+							Data: &pb.AttestationData{Slot: d.Slot, CommitteeIndex: d.Idx, BeaconBlockRoot: d.BBR, Source: &pb.Checkpoint{Epoch: d.Src.Epoch, Root: d.Src.Root}, Target: &pb.Checkpoint{Epoch: d.Tgt.Epoch, Root: d.Tgt.Root}}})
+						mreq.Requests = append(mreq.Requests, &pb.SignRequest{Id: &pb.SignRequest_Account{Account: a.Path()}, Domain: mkDomain(domRandao, 0), Data: tag[:]})
+					}
+					ares, aerr := inst.Handler.SignBeaconAttestations(hctx, areq)
+					mres, merr := inst.Handler.Multisign(hctx, mreq)
+					// read the responses a moment later, as the server's encoder does
+					runtime.Gosched()
+					var local []string
+					if aerr != nil || merr != nil || len(ares.GetResponses()) != perCaller || len(mres.GetResponses()) != perCaller {
+						local = append(local, fmt.Sprintf("concurrent callers: caller %d round %d: errors %v / %v, %d / %d responses for %d entries", g, r, aerr, merr, len(ares.GetResponses()), len(mres.GetResponses()), perCaller))
+					} else {
+						for i := 0; i < perCaller; i++ {
+							ar, mr := ares.GetResponses()[i], mres.GetResponses()[i]
+							if ar.GetState() != pb.ResponseState_SUCCEEDED || !verifySig(ar.GetSignature(), attRoot(datas[i]), whos[i].Key) {
+								local = append(local, fmt.Sprintf("concurrent callers: caller %d round %d, SignBeaconAttestations position %d (key#%d, attestation %d->%d): state %s, signature valid for that position's data and account: false",
+									g, r, i, whos[i].ID, ep-1, ep, ar.GetState()))
+							}
+							if mr.GetState() != pb.ResponseState_SUCCEEDED || !verifySig(mr.GetSignature(), signingRoot(mreq.Requests[i].Data, mreq.Requests[i].Domain), whos[i].Key) {
+								local = append(local, fmt.Sprintf("concurrent callers: caller %d round %d, Multisign position %d (key#%d): state %s, signature valid for that position's data and account: false",
+									g, r, i, whos[i].ID, mr.GetState()))
+							}
+						}
+					}
+					cmu.Lock()
+					checked += 2 * perCaller
+					cfails = append(cfails, local...)
+					cmu.Unlock()
+				}
+			}(g)
+		}
+		cwg.Wait()
+		if len(cfails) > 6 {
+			cfails = cfails[:6]
+		}
+		monFail = append(monFail, cfails...)
+		run.stats["concurrent-handler.positions"] = checked
+		inst.Close(ctx)
+	}
 
 	// SHA-256 itself
 	for k := 0; k < 40; k++ {
